@@ -30,7 +30,7 @@ def pre : List StepRec :=
 def setA : StepRec :=
   { actor := "u1a", op := .seteuidStr "u1", vs := some ("u1a", "u1", .int 1), res := some (.int 1), snap := some [M, A1, B0] }
 
-def J (t : List StepRec) : List String := judgeEv "Root" (some "Backbone") t
+def J (t : List StepRec) : List String := judgeEv { root := "Root", bb := some "Backbone" } t
 
 /-! positive controls -/
 example : J pre = [] := by decide
